@@ -67,7 +67,14 @@ type outcome struct {
 
 func (s *script) handler(o *outcome) http.Handler {
 	return http.HandlerFunc(func(w http.ResponseWriter, r *http.Request) {
-		if st := r.Header.Get("X-Warm"); st != "" {
+		if st := r.Header.Get("X-Warm"); st == "abort" {
+			// an earlier exchange that broke off mid-body, the way a reverse proxy aborts when its
+			// backend connection dies
+			o.warm++
+			w.WriteHeader(200)
+			_, _ = w.Write([]byte("partial"))
+			panic(http.ErrAbortHandler)
+		} else if st != "" {
 			o.warm++
 			code := 200
 			fmt.Sscan(st, &code)
@@ -189,6 +196,13 @@ var customErr = utils.ErrorHandlerFunc(func(w http.ResponseWriter, _ *http.Reque
 // wrap builds one layer around next. intervene makes this layer the intervening one; custom
 // (with intervene) configures the layer's own way of answering: 1 = a caller-supplied error
 // handler / fallback handler, 2 = the breaker's stock response fallback, 3 = its redirect fallback.
+// stickyNames: the affinity cookie names of the sticky balancers built for the current case.
+var stickyNames []string
+
+// connLimit: the limit of the non-intervening connection limiters of the current case (the
+// requests of a case come one after the other: any limit >= 1 is "not reached").
+var connLimit = int64(5)
+
 func wrap(t *rapid.T, kind string, next http.Handler, intervene bool, custom ...int) http.Handler {
 	cust := 0
 	if len(custom) > 0 && intervene {
@@ -228,7 +242,7 @@ func wrap(t *rapid.T, kind string, next http.Handler, intervene bool, custom ...
 		must(err)
 		return h
 	case "connlimit":
-		limit := int64(5)
+		limit := connLimit
 		if intervene {
 			limit = 0
 		}
@@ -295,7 +309,9 @@ func wrap(t *rapid.T, kind string, next http.Handler, intervene bool, custom ...
 	case "roundrobin", "roundrobin+sticky":
 		var opts []roundrobin.LBOption
 		if kind == "roundrobin+sticky" {
-			opts = append(opts, roundrobin.EnableStickySession(roundrobin.NewStickySession("sid")))
+			// every sticky balancer of a stack (tier, then node) has an affinity cookie of its own
+			stickyNames = append(stickyNames, fmt.Sprintf("sid%d", len(stickyNames)+1))
+			opts = append(opts, roundrobin.EnableStickySession(roundrobin.NewStickySession(stickyNames[len(stickyNames)-1])))
 		}
 		if cust == 1 {
 			opts = append(opts, roundrobin.ErrorHandler(customErr))
@@ -472,9 +488,22 @@ func TestC20_Transparent(t *testing.T) {
 		}
 		tlsRequests = rapid.IntRange(0, 3).Draw(t, "tls") == 0
 		bodyLen := rapid.SampledFrom([]int{0, 0, 5, 200}).Draw(t, "reqBody")
+		stickyNames = nil
+		connLimit = rapid.SampledFrom([]int64{1, 2, 3, 5}).Draw(t, "connLimit")
+		defer func() { connLimit = 5 }()
+		// an outer handler (session middleware, CORS) may have put a cookie on the response already
+		presetCookie := rapid.IntRange(0, 3).Draw(t, "presetCookie") == 0
+		// exchanges before this one may have been aborted by the handler (backend died mid-body)
+		abortedBefore := 0
+		if rapid.IntRange(0, 2).Draw(t, "abortedExchangesBefore") == 0 {
+			abortedBefore = rapid.IntRange(1, 4).Draw(t, "nAborted")
+		}
 		// bare run
 		var o0 outcome
 		rec0 := sim.NewRecorder()
+		if presetCookie {
+			rec0.Header().Add("Set-Cookie", "outer=1; Path=/")
+		}
 		plain := s.hijack && s.plainTop
 		hijack := s.hijack && !plain
 		hij0, p0 := serve(s.handler(&o0), rec0, newRequest(bodyLen), hijack, plain)
@@ -487,9 +516,19 @@ func TestC20_Transparent(t *testing.T) {
 		for i := len(layers) - 1; i >= 0; i-- {
 			h = wrap(t, layers[i], h, false)
 		}
+		for i := 0; i < abortedBefore; i++ {
+			wreq := newRequest(bodyLen)
+			wreq.Header.Set("X-Warm", "abort")
+			if _, p := serve(h, sim.NewRecorder(), wreq, false); p != nil && p != http.ErrAbortHandler {
+				t.Fatalf("an exchange aborted by the handler (panic(http.ErrAbortHandler)) came out of the stack %v as %v", layers, p)
+			}
+		}
 		rec1 := sim.NewRecorder()
+		if presetCookie {
+			rec1.Header().Add("Set-Cookie", "outer=1; Path=/")
+		}
 		hij1, p1 := serve(h, rec1, newRequest(bodyLen), hijack, plain)
-		desc := fmt.Sprintf("stack (outermost first) %v, handler %s, request body %d bytes", layers, s, bodyLen)
+		desc := fmt.Sprintf("stack (outermost first) %v, handler %s, request body %d bytes, %d aborted exchanges before, connection limit %d, preset cookie %v", layers, s, bodyLen, abortedBefore, connLimit, presetCookie)
 		if p1 != nil {
 			t.Fatalf("the stack panicked: %v\n%s", p1, desc)
 		}
@@ -540,11 +579,13 @@ func TestC20_Transparent(t *testing.T) {
 				}
 			}
 			var h1 []string
+			stickySeen := map[string]int{}
 			for _, l := range sim.HeaderMultiset(rec1.SentHeader()) {
 				if strings.HasPrefix(l, http.TrailerPrefix) {
 					continue // trailers are compared on their own (a buffering layer knows them before the head goes out)
 				}
-				if strings.HasPrefix(l, "Set-Cookie: sid=") {
+				if strings.HasPrefix(l, "Set-Cookie: sid") && strings.Contains(l, "=") {
+					stickySeen[strings.SplitN(strings.TrimPrefix(l, "Set-Cookie: "), "=", 2)[0]]++
 					continue // the sticky session's documented addition
 				}
 				if strings.HasPrefix(l, "X-Fallback-Answer:") {
@@ -554,6 +595,12 @@ func TestC20_Transparent(t *testing.T) {
 			}
 			if !sim.SameStrings(h0, h1) {
 				t.Fatalf("client got headers %q through the stack, the bare handler gives %q\n%s", h1, h0, desc)
+			}
+			// each sticky balancer adds its own cookie, once (the request carried none)
+			for _, name := range stickyNames {
+				if stickySeen[name] != 1 {
+					t.Fatalf("the request carried no cookie; the sticky balancers of the stack use the cookies %v, the response carries %v (each must be set exactly once)\n%s", stickyNames, stickySeen, desc)
+				}
 			}
 			if s.status != 204 && s.status != 304 && !bytes.Equal(rec1.Body(), rec0.Body()) {
 				t.Fatalf("client got %d body bytes through the stack, the bare handler gives %d\n%s", len(rec1.Body()), len(rec0.Body()), desc)
@@ -611,6 +658,7 @@ var intervening = map[string]int{"connlimit": 429, "ratelimit": 429, "cbreaker":
 
 func TestC20_Intervening(t *testing.T) {
 	rapid.Check(t, func(t *rapid.T) {
+		stickyNames = nil
 		tlsRequests = rapid.IntRange(0, 3).Draw(t, "tls") == 0
 		clock.Freeze(epoch)
 		defer clock.Unfreeze()
